@@ -664,9 +664,10 @@ fn render(body: &[Node], atoms: &[Atom], ret: Option<&'static str>) -> String
 	treegen::print_seq(body, 1, &at, &mut body_text);
 	// Neighbouring declarations that use the same names must not matter:
 	// parameters of function heads and the variables and parameters of other
-	// functions are not in scope here. One of three surroundings per body.
-	match crate::choices::fnv(&body_text) % 3
+	// functions are not in scope here. One of four surroundings per body (the fourth: functions without parameters, with bodies, before it).
+	match crate::choices::fnv(&body_text) % 4
 	{
+		3 => s.push_str("fn before() -> i32\n{\n\tvar v: i32 = K;\n\treturn: v\n}\n\nfn nothing()\n{\n}\n\n"),
 		1 => s.push_str("fn head_one(v: i32, w: i32) -> i32;\n\nfn head_two(z: i32, u: i32, p: i32);\n\n"),
 		2 => s.push_str("fn other(u: i32, z: i32) -> i32\n{\n\tvar v: i32 = u;\n\tvar w: i32 = z;\n\treturn: v + w\n}\n\n"),
 		_ => (),
@@ -1301,7 +1302,7 @@ impl Check for C05
 	}
 	fn rule(&self) -> String
 	{
-		"function bodies over {var declaration, use in a call, use in an if condition, read-modify-write, label, goto, if-goto, block, if-block, if-else-blocks}: (a) every body of <= 5 (quick) / <= 6 (thorough) nodes, nesting <= 3, 2 variable names and 1 label name (exhaustive); (b) random bodies (label structure repaired to be valid by construction) up to 30 nodes with 3 variable names, the parameter name, a constant name, an undeclared name, 2 labels, `goto return`, and a use in the return value; (c) structured skip patterns: goto(s), declarations, label and uses in every relative order and nesting; (d) random bodies of a function without parameters in a module without constants (nothing in scope at the first statements), static oracle only. Random bodies also contain `var v: i32 = v + 1;` (the initialiser is analysed before the variable exists). Every body is surrounded by one of three neighbourhoods chosen by its hash: nothing, two function heads whose parameters carry the body's variable names, or another function with variables and parameters of the same names (none of which is in scope). Bodies whose label structure is invalid are discarded (C04's subject) and counted. Oracle 1 (static): an independent positional model predicts the set {E402, E422, E482}; verdict and the scoping subset of Errors::codes() must equal it. Oracle 2 (dynamic, independent of oracle 1): every ACCEPTED body is interpreted for p=0 and p=1 by a scope-aware interpreter that fails if a variable is read whose declaration did not execute; a sample is also run with lli and compared on stdout. Non-trivial: a goto/label pair spanning a declaration, or a use nested >= 2 blocks deep; distinct by body.".into()
+		"function bodies over {var declaration, use in a call, use in an if condition, read-modify-write, label, goto, if-goto, block, if-block, if-else-blocks}: (a) every body of <= 5 (quick) / <= 6 (thorough) nodes, nesting <= 3, 2 variable names and 1 label name (exhaustive); (b) random bodies (label structure repaired to be valid by construction) up to 30 nodes with 3 variable names, the parameter name, a constant name, an undeclared name, 2 labels, `goto return`, and a use in the return value; (c) structured skip patterns: goto(s), declarations, label and uses in every relative order and nesting; (d) random bodies of a function without parameters in a module without constants (nothing in scope at the first statements), static oracle only. Random bodies also contain `var v: i32 = v + 1;` (the initialiser is analysed before the variable exists). Every body is surrounded by one of four neighbourhoods chosen by its hash: nothing, two function heads whose parameters carry the body's variable names, another function with variables and parameters of the same names (none of which is in scope), or two functions without parameters before it. Bodies whose label structure is invalid are discarded (C04's subject) and counted. Oracle 1 (static): an independent positional model predicts the set {E402, E422, E482}; verdict and the scoping subset of Errors::codes() must equal it. Oracle 2 (dynamic, independent of oracle 1): every ACCEPTED body is interpreted for p=0 and p=1 by a scope-aware interpreter that fails if a variable is read whose declaration did not execute; a sample is also run with lli and compared on stdout. Non-trivial: a goto/label pair spanning a declaration, or a use nested >= 2 blocks deep; distinct by body.".into()
 	}
 	fn assumptions(&self) -> Vec<String>
 	{
